@@ -17,7 +17,7 @@ Lemma deser_table_total_l : forall k, (k < nkinds)%nat -> deser_common (ktext k)
 Proof.
   assert (H : table_total = true) by (vm_compute; reflexivity).
   intros k Hk. pose proof (forallb_seq _ _ H k Hk) as E. cbv beta in E.
-  destruct (deser_common (ktext k)) as [[] [k'|]]; try discriminate.
+  clear H. revert E. generalize (deser_common (ktext k)). intros [[] [k'|]] E; try discriminate E.
   apply Nat.eqb_eq in E. subst. reflexivity.
 Qed.
 
